@@ -559,7 +559,7 @@ func Evatra(l *WaterSharedVars, g *GlobalVarsMain, hPath *HFilePath, zeit int) {
 		// ! LUMDAY                = kumulative Dauer des Luftmangels (Tage), maximum 4
 		// ! LURED                 = Reduktionsfaktor fuer Transpiration
 		LUPOR := (g.PORGES[0] + g.PORGES[1] + g.PORGES[2] - g.WG[0][0] - g.WG[0][1] - g.WG[0][2]) / 3
-		if LUPOR < g.LUKRIT[g.INTWICK.Index] {
+		if g.LUKRIT[g.INTWICK.Index] > 0 && LUPOR < g.LUKRIT[g.INTWICK.Index] {
 			g.LUMDAY = g.LUMDAY + g.DT.Index
 			if g.LUMDAY > 4 {
 				g.LUMDAY = 4
